@@ -476,17 +476,27 @@ Fixpoint sw_levels (n : nat) (level : nat) (tabs : alltables) (e : env) (T : tab
     end
   end.
 
+(** the two halves of _<cmd>_subword started in an arbitrary loop configuration (the script starts in
+    state 0 at character 0) *)
+Definition subword_matches_from (v : variant) (tabs : alltables) (e : env) (T : tables) (word : string)
+           (state : N) (ci : nat) (log : list invocation) : M (bool * list invocation) :=
+  do (matched, _, _, log1) <- sw_loop (sw_fuel T word) v false tabs e T word state ci log;
+  Ok (matched, log1).
+
+Definition subword_complete_from (v : variant) (tabs : alltables) (e : env) (T : tables) (word : string)
+           (state : N) (ci : nat) (log : list invocation) : M (list string * list invocation) :=
+  do (_, state1, ci1, log1) <- sw_loop (sw_fuel T word) v true tabs e T word state ci log;
+  sw_levels (S (N.to_nat (t_maxlevel T))) 0 tabs e T state1 (stake ci1 word) (sdrop ci1 word) [] [] log1.
+
 (** _<cmd>_subword_<id> matches "$word"  ->  (return code = 0, log) *)
 Definition subword_matches (v : variant) (tabs : alltables) (e : env) (T : tables) (word : string)
            (log : list invocation) : M (bool * list invocation) :=
-  do (matched, _, _, log1) <- sw_loop (sw_fuel T word) v false tabs e T word 0 0 log;
-  Ok (matched, log1).
+  subword_matches_from v tabs e T word 0 0 log.
 
 (** _<cmd>_subword_<id> complete "$word"  ->  (what it appends to matches, log) *)
 Definition subword_complete (v : variant) (tabs : alltables) (e : env) (T : tables) (word : string)
            (log : list invocation) : M (list string * list invocation) :=
-  do (_, state, ci, log1) <- sw_loop (sw_fuel T word) v true tabs e T word 0 0 log;
-  sw_levels (S (N.to_nat (t_maxlevel T))) 0 tabs e T state (stake ci word) (sdrop ci word) [] [] log1.
+  subword_complete_from v tabs e T word 0 0 log.
 
 (** tables of the within-word function _<cmd>_subword_<script id> *)
 Fixpoint subword_tables (subs : list (N * N * tables)) (sid : N) : option tables :=
